@@ -211,7 +211,11 @@ impl Encoder<Message<(Response<()>, BodySize)>> for Codec {
             }
 
             Message::Chunk(Some(bytes)) => {
-                self.encoder.encode_chunk(bytes.as_ref(), dst)?;
+                // an empty chunk is not the end of the body (that is `Chunk(None)`); the chunked
+                // encoder would take it for the end and drop everything after it
+                if !bytes.is_empty() {
+                    self.encoder.encode_chunk(bytes.as_ref(), dst)?;
+                }
             }
 
             Message::Chunk(None) => {
